@@ -21,7 +21,7 @@ def run_checks():
 def main():
     if git("status", "--porcelain").stdout.strip():
         print("/repo not clean"); return 2
-    ids = sys.argv[1:] or sorted(d for d in os.listdir(REF) if os.path.isdir(os.path.join(REF, d)))
+    ids = sys.argv[1:] or sorted(d for d in os.listdir(REF) if os.path.isdir(os.path.join(REF, d)) and not d.startswith("_"))
     rows = []
     for rid in ids:
         d = os.path.join(REF, rid)
